@@ -48,7 +48,10 @@ func c03Jobs(tier string, seed int64) []string {
 			L = 3
 		}
 		if tier == "thorough" {
-			L = 4
+			L = 3
+			if ti == 0 || ti == 7 {
+				L = 4 // ~85k paths per table
+			}
 		}
 		for l := 1; l <= L; l++ {
 			add("free:" + strconv.Itoa(ti) + ":" + strconv.Itoa(l))
@@ -61,11 +64,6 @@ func c03Jobs(tier string, seed int64) []string {
 		if tier == "thorough" && ti != 4 {
 			add("skel:" + strconv.Itoa(ti) + ":4")
 		}
-	}
-	if tier == "thorough" {
-		add("free:0:5")
-		add("free:1:5")
-		add("free:7:5")
 	}
 	for _, e := range []string{"a+b*(1-a)", "-a*b+f(a,b)[1].x", "(a,b)->a*b+1", "[a,b+1,-a].m(b)(1)"} {
 		add("mal:4:" + e)
